@@ -63,6 +63,10 @@ structure Rules (ps : Params) (top : Bool) (code : List Instr) : Prop where
     g ∉ ps.slots
   payload : ∀ (j n : Nat), Path code 0 j →
     (code[j]? = some (Instr.TAILCALL n) ∨ code[j]? = some (Instr.TCOJMP n)) → n ≤ ps.maxN
+  fwd : ∀ (j t : Nat), Path code 0 j → (code[j]? = some (Instr.IF t) ∨ code[j]? = some (Instr.JMP t)) → j < t
+  word : ∀ (j g n : Nat), Path code 0 j →
+    (code[j]? = some (Instr.CALLGLOBALTAIL g) ∨ code[j]? = some (Instr.CALLGLOBAL g)) →
+    (code[j + 1]? = some (Instr.TAILCALL n) ∨ code[j + 1]? = some (Instr.FUNC n)) → n ≤ ps.maxN
 
 inductive GoodCode (ps : Params) : Bool → List Instr → Prop where
   | mk {top : Bool} {code : List Instr} : Rules ps top code →
@@ -333,9 +337,14 @@ def rulesB (ps : Params) (top : Bool) (code : List Instr) : Bool :=
   decide (code.length ≤ ps.maxLen) && (tops code).all fun j =>
     match code[j]? with
     | some (Instr.FUNC n) => top && decide (n ≤ ps.maxN)
-    | some (Instr.CALLGLOBAL g) => top || ps.slots.contains g
-    | some (Instr.IF t) => okB code t
-    | some (Instr.JMP t) => okB code t
+    | some (Instr.CALLGLOBAL g) => (top || ps.slots.contains g) &&
+        (match code[j + 1]? with
+         | some (Instr.TAILCALL n) => decide (n ≤ ps.maxN) | some (Instr.FUNC n) => decide (n ≤ ps.maxN) | _ => true)
+    | some (Instr.IF t) => okB code t && decide (j < t)
+    | some (Instr.JMP t) => okB code t && decide (j < t)
+    | some (Instr.CALLGLOBALTAIL _) =>
+        (match code[j + 1]? with
+         | some (Instr.TAILCALL n) => decide (n ≤ ps.maxN) | some (Instr.FUNC n) => decide (n ≤ ps.maxN) | _ => true)
     | some (Instr.BIND g) => !ps.slots.contains g
     | some (Instr.SET g) => !ps.slots.contains g
     | some (Instr.TAILCALL n) => decide (n ≤ ps.maxN)
@@ -365,17 +374,20 @@ theorem rulesB_sound {ps : Params} {top : Bool} {code : List Instr} (h : rulesB 
     Rules ps top code := by
   simp only [rulesB, Bool.and_eq_true, decide_eq_true_eq, List.all_eq_true] at h
   obtain ⟨hlen, h⟩ := h
-  refine ⟨hlen, ?_, ?_, ?_, ?_, ?_⟩
+  refine ⟨hlen, ?_, ?_, ?_, ?_, ?_, ?_, ?_⟩
   · intro j n hp hj
     have := h j (mem_tops hp (lt_of_get' hj))
     simpa [hj] using this
   · intro j g hp hj
     have := h j (mem_tops hp (lt_of_get' hj))
-    simpa [hj] using this
+    simp only [hj, Bool.and_eq_true, Bool.or_eq_true] at this
+    rcases this.1 with h1 | h1
+    · exact Or.inl h1
+    · exact Or.inr (by simpa using h1)
   · intro j t hp hj
     rcases hj with hj | hj
-    · have := h j (mem_tops hp (lt_of_get' hj)); simp only [hj] at this; exact okB_sound this
-    · have := h j (mem_tops hp (lt_of_get' hj)); simp only [hj] at this; exact okB_sound this
+    · have := h j (mem_tops hp (lt_of_get' hj)); simp only [hj, Bool.and_eq_true] at this; exact okB_sound this.1
+    · have := h j (mem_tops hp (lt_of_get' hj)); simp only [hj, Bool.and_eq_true] at this; exact okB_sound this.1
   · intro j g hp hj
     rcases hj with hj | hj
     · have := h j (mem_tops hp (lt_of_get' hj)); simpa [hj] using this
@@ -384,6 +396,17 @@ theorem rulesB_sound {ps : Params} {top : Bool} {code : List Instr} (h : rulesB 
     rcases hj with hj | hj
     · have := h j (mem_tops hp (lt_of_get' hj)); simpa [hj] using this
     · have := h j (mem_tops hp (lt_of_get' hj)); simpa [hj] using this
+  · intro j t hp hj
+    rcases hj with hj | hj
+    · have := h j (mem_tops hp (lt_of_get' hj)); simp only [hj, Bool.and_eq_true, decide_eq_true_eq] at this; exact this.2
+    · have := h j (mem_tops hp (lt_of_get' hj)); simp only [hj, Bool.and_eq_true, decide_eq_true_eq] at this; exact this.2
+  · intro j g n hp hj hw
+    rcases hj with hj | hj
+    · have := h j (mem_tops hp (lt_of_get' hj))
+      rcases hw with hw | hw <;> simpa [hj, hw] using this
+    · have := h j (mem_tops hp (lt_of_get' hj))
+      simp only [hj, Bool.and_eq_true] at this
+      rcases hw with hw | hw <;> simpa [hw] using this.2
 
 theorem goodCodeB_sound (ps : Params) : ∀ (fuel : Nat) (top : Bool) (code : List Instr),
     goodCodeB fuel ps top code = true → GoodCode ps top code := by
